@@ -648,6 +648,14 @@ def main():
             known_hits.append((full, case, hit))
             known_fail_keys.add((name, site))
             continue
+        if wit is None and any(k['property'] == prop and k['obligation'] == full for k in known):
+            # the obligation is a recorded known finding - it has never been proved - and its recorded input no longer
+            # fails (nor does any other of its oracle): the defect may have been repaired, and a failed proof attempt alone
+            # decides nothing (it is not "an obligation that passed on the unchanged tree and now fails")
+            undecided.append('%s: %s is recorded as a known finding and still has no proof, but the oracle finds no failing input any more '
+                             '(repaired? the obligation now needs a proof, and the entry of known_findings.txt a review)' % (u, full))
+            known_fail_keys.add((name, site))
+            continue
         h = hashlib.sha1(full.encode()).hexdigest()[:10]
         path = os.path.join(BUILD, 'replay_cases', '%s-%s.json' % (prop, h))
         json.dump(rec, open(path, 'w'), indent=1)
